@@ -53,7 +53,7 @@ def cases(tier, seed, i, n):
         for ln in range(126):
             yield dict(msgs=[dict(k='ping', p=['lit', bytes((ln * 3 + k) & 0xff for k in range(ln))])], pol='passive',
                        auto=True, seg=('coalesced', 'bytewise')[ln % 2], fault=None, close_at=None)
-        count = 2500 if tier == 'quick' else 60000
+        count = 5000 if tier == 'quick' else 500000
         for idx in range(count):
             msgs = ping_heavy(rnd, idx)
             pol = ('passive', 'send', 'close', 'send+close')[idx % 4]
@@ -198,14 +198,28 @@ def judge(case, run, w, acc):
     failed = [e for e in w.log if e[0] == 'sendall_fault']
     failed_li = [w.log.index(e) for e in failed]
     expected = []
+    names = run.names
+    # which Close is it?  the application's own close(), or the library's echo of a server Close
+    echo = bool(close_w) and not close_w[0]['app']
+    idx_closing = names.index('closing') if 'closing' in names else None
     for i, data in ping_evs:
         li_event = run.nlog[i]          # op-log length when the Ping event was yielded
         if close_li is not None and close_li < li_event:
-            # Close written before this Ping was yielded -> must not be answered (checked below)
+            if echo and idx_closing is not None and i < idx_closing:
+                # the client's only Close is the echo of the server's Close, and this Ping was received
+                # BEFORE that server Close: "the client has not yet sent a Close" held when it arrived,
+                # so it is due a Pong - written before the echo
+                expected.append((i, data))
+            # otherwise: Close written before this Ping was yielded -> must not be answered (checked below)
             continue
         expected.append((i, data))
     if any(x['li'] > close_li for x in lib_pongs) if close_li is not None else False:
         return 'pong-written-after-client-close', detail
+    if echo and idx_closing is not None:
+        due = [i for i, _d in expected if i < idx_closing and run.nlog[i] > close_li]
+        if due:
+            detail['unanswered_ping_events'] = due
+            return 'ping-before-server-close-not-answered-because-echo-was-written-first', detail
     # remove pings whose pong write was the injected failure
     dropped = set()
     for e in failed:
